@@ -166,9 +166,9 @@ def truth_table_impl(prov, n_units, n_cands=2):
     return out
 
 
-def conj_prov(I, rows, n_units):
-    """conjunctive provenance from unit sets (value-1 literals)"""
-    return make_prov(I, [{"conj": [[u, 1] for u in r]} if len(r) > 1 else {"eq": [r[0], 1]} for r in rows], n_units)
+def conj_prov(I, rows, n_units, keys=None, lazy=False):
+    """conjunctive provenance from unit sets (value-1 literals); keys = the unit identifiers per position (default: the positions)"""
+    return make_prov(I, [{"conj": [[u, 1] for u in r]} if len(r) > 1 else {"eq": [r[0], 1]} for r in rows], n_units, keys=keys, lazy=lazy)
 
 
 def global_state():
